@@ -286,6 +286,7 @@ type World struct {
 	streams          map[string]*MemStream // model clients s1, s2: a control connection to the stream listener
 	streamRest       map[string][]byte     // bytes of an incomplete frame read from that connection
 	lisS             *MemListener
+	lisS2            *MemListener // second stream listener (client sx)
 	streamMu         sync.Mutex
 	// real mode (Meta.Extra["real"] = "yes", real-time drivers only): the IPv4 datagram listener and its clients
 	// c1..c3 are kernel UDP sockets on the loopback interface, so that code paths that specialise on
@@ -470,10 +471,13 @@ func NewWorld(meta Meta, seed int64) (*World, error) {
 			if c1 := w.clientAddr["c1"]; c1 != nil {
 				a = &net.UDPAddr{IP: c1.IP, Port: c1.Port}
 			}
-			if c != "s1" {
+			if c != "s1" && c != "sx" {
 				a = &net.UDPAddr{IP: net.IPv4(10, 0, 0, 12).To4(), Port: 40002}
 			}
 			w.listenAddr[c] = srv4
+			if c == "sx" { // the IP and port of s1 once more, connected to the server's second stream listener
+				w.listenAddr[c] = &net.UDPAddr{IP: srv4.IP, Port: srv4.Port + 1}
+			}
 			w.clientAddr[c] = a
 
 			continue
@@ -621,6 +625,14 @@ func NewWorld(meta Meta, seed int64) (*World, error) {
 			cfg.ListenerConfigs = []turn.ListenerConfig{{Listener: lis, RelayAddressGenerator: w.gen, PermissionHandler: permHandler}}
 		}
 	}
+	if la := w.listenAddr["sx"]; la != nil && w.lisS != nil {
+		lis2, err := w.Net.ListenTCP(&net.TCPAddr{IP: la.IP, Port: la.Port})
+		if err != nil {
+			return nil, err
+		}
+		w.lisS2 = lis2
+		cfg.ListenerConfigs = append(cfg.ListenerConfigs, turn.ListenerConfig{Listener: lis2, RelayAddressGenerator: w.gen, PermissionHandler: permHandler})
+	}
 	if meta.Extra["auth"] == "no" {
 		cfg.AuthHandler = nil
 	}
@@ -739,6 +751,9 @@ func (w *World) Close() {
 	if w.lisS != nil {
 		_ = w.lisS.Close()
 	}
+	if w.lisS2 != nil {
+		_ = w.lisS2.Close()
+	}
 	for _, p := range w.peers {
 		_ = p.Close()
 	}
@@ -757,6 +772,20 @@ func (w *World) Close() {
 	w.gen.mu.Unlock()
 }
 
+// clientOf names the client of a 5-tuple: s1 and sx share their address and differ in the listener they reached.
+func (w *World) clientOf(src, dst net.Addr) string {
+	c := w.clientName(src)
+	if d, ok := dst.(*net.TCPAddr); ok && (c == "s1" || c == "sx") {
+		if la := w.listenAddr["sx"]; la != nil && la.Port == d.Port {
+			return "sx"
+		}
+
+		return "s1"
+	}
+
+	return c
+}
+
 func (w *World) clientName(a net.Addr) string {
 	var ip net.IP
 	var port int
@@ -770,9 +799,12 @@ func (w *World) clientName(a net.Addr) string {
 		return "?" + a.String()
 	}
 	for c, ca := range w.clientAddr {
-		if ca.IP.Equal(ip) && ca.Port == port && w.isStream(c) == stream {
+		if ca.IP.Equal(ip) && ca.Port == port && w.isStream(c) == stream && c != "sx" {
 			return c
 		}
+	}
+	if ca := w.clientAddr["sx"]; ca != nil && stream && ca.IP.Equal(ip) && ca.Port == port {
+		return "sx"
 	}
 
 	return "?" + a.String()
@@ -820,47 +852,47 @@ func (w *World) ev(kind, key string) {
 
 func (w *World) eventHandler() turn.EventHandler {
 	return turn.EventHandler{
-		OnAllocationCreated: func(src, _ net.Addr, _, user, _ string, relay net.Addr, _ int) {
+		OnAllocationCreated: func(src, dst net.Addr, _, user, _ string, relay net.Addr, _ int) {
 			if w.gate != nil {
 				w.gate("callout.alloccreated")
 			}
 			w.evMu.Lock()
 			w.held[user]++
 			w.evMu.Unlock()
-			w.ev("alloc+", w.clientName(src)+"|"+user+"|"+relay.String())
+			w.ev("alloc+", w.clientOf(src, dst)+"|"+user+"|"+relay.String())
 		},
-		OnAllocationDeleted: func(src, _ net.Addr, _, user, _ string) {
+		OnAllocationDeleted: func(src, dst net.Addr, _, user, _ string) {
 			if w.gate != nil {
 				w.gate("callout.allocdeleted")
 			}
 			w.evMu.Lock()
 			w.held[user]--
 			w.evMu.Unlock()
-			w.ev("alloc-", w.clientName(src)+"|"+user)
+			w.ev("alloc-", w.clientOf(src, dst)+"|"+user)
 		},
-		OnPermissionCreated: func(src, _ net.Addr, _, _, _ string, _ net.Addr, peer net.IP) {
+		OnPermissionCreated: func(src, dst net.Addr, _, _, _ string, _ net.Addr, peer net.IP) {
 			if w.gate != nil {
 				w.gate("callout.permcreated")
 			}
-			w.ev("perm+", w.clientName(src)+"|"+w.ipName(peer))
+			w.ev("perm+", w.clientOf(src, dst)+"|"+w.ipName(peer))
 		},
-		OnPermissionDeleted: func(src, _ net.Addr, _, _, _ string, _ net.Addr, peer net.IP) {
+		OnPermissionDeleted: func(src, dst net.Addr, _, _, _ string, _ net.Addr, peer net.IP) {
 			if w.slowDeleted != nil {
 				w.slowDeleted("perm-", w.ipName(peer)) // (real-time driver only: the operator's callback is slow)
 			}
-			w.ev("perm-", w.clientName(src)+"|"+w.ipName(peer))
+			w.ev("perm-", w.clientOf(src, dst)+"|"+w.ipName(peer))
 		},
-		OnChannelCreated: func(src, _ net.Addr, _, _, _ string, _, peer net.Addr, n uint16) {
+		OnChannelCreated: func(src, dst net.Addr, _, _, _ string, _, peer net.Addr, n uint16) {
 			if w.gate != nil {
 				w.gate("callout.chancreated")
 			}
-			w.ev("chan+", fmt.Sprintf("%s|%v|%d", w.clientName(src), w.peerName(peer), n))
+			w.ev("chan+", fmt.Sprintf("%s|%v|%d", w.clientOf(src, dst), w.peerName(peer), n))
 		},
-		OnChannelDeleted: func(src, _ net.Addr, _, _, _ string, _, peer net.Addr, n uint16) {
+		OnChannelDeleted: func(src, dst net.Addr, _, _, _ string, _, peer net.Addr, n uint16) {
 			if w.slowDeleted != nil {
 				w.slowDeleted("chan-", fmt.Sprint(n))
 			}
-			w.ev("chan-", fmt.Sprintf("%s|%v|%d", w.clientName(src), w.peerName(peer), n))
+			w.ev("chan-", fmt.Sprintf("%s|%v|%d", w.clientOf(src, dst), w.peerName(peer), n))
 		},
 	}
 }
@@ -1560,10 +1592,13 @@ func (w *World) Project() Proj {
 				continue
 			}
 			var al *allocation.Allocation
-			if mi == 2 { // the stream listener's manager (the server keys these 5-tuples with allocation.UDP as well)
+			if mi >= 2 { // a stream listener's manager (the server keys these 5-tuples with allocation.UDP as well)
 				la = w.listen4.addr
-				if !w.isStream(c) {
+				if !w.isStream(c) || (mi == 3) != (c == "sx") {
 					continue
+				}
+				if mi == 3 {
+					la = w.listenAddr["sx"]
 				}
 				al = m.GetAllocation(&allocation.FiveTuple{SrcAddr: &net.TCPAddr{IP: ca.IP, Port: ca.Port},
 					DstAddr: &net.TCPAddr{IP: la.IP, Port: la.Port}, Protocol: allocation.UDP})
